@@ -38,6 +38,44 @@ def rule_network_dependency(ctx: Ctx) -> None:
     partition_handle_rules(ctx, "C11-9")
 
 
+def rule_hunted(ctx: Ctx) -> None:
+    """C11-3/C11-6 (hunted defects): (a) the state machine a node applies to is the one it was given (`is not None`, not truthiness: a journal-like
+    machine with `__len__` is empty, hence falsy, at construction); (b) every handler that can depose a leader re-arms an election timer for
+    it — `_become_leader` cancelled the timer and `_step_down` does not create one, so a deposed leader without a timer never stands again."""
+    prog = ctx.prog
+    init = prog.func(RAFT, "RaftNode.__init__")
+    sm = [s_ for s_ in walk_stmts(init.node.body) if isinstance(s_, ast.Assign) and path_of(s_.targets[0]) == "self._state_machine"]
+    ok = len(sm) == 1 and ((isinstance(sm[0].value, ast.IfExp) and {f.sig for f in atoms(sm[0].value.test, True)} == {("isnot", "state_machine", "None")} and path_of(sm[0].value.body) == "state_machine")
+                           or path_of(sm[0].value) == "state_machine")
+    ctx.ob("C11-6", "G7", init, sm[0] if sm else None, ok, "RaftNode applies committed commands to the state machine it was given whenever one was given (`state_machine if state_machine is not None else …`)")
+    node = prog.cls(RAFT, "RaftNode")
+    n = 0
+    for m in node.methods.values():
+        mf = ctx.flow(m)
+        downs = [nd for nd in mf.cfg.nodes if nd.kind == "stmt" and any(path_of(k.func) == "self._step_down" for k in calls_in(nd.ast))]
+        for d_ in downs:
+            n += 1
+            bad = []
+            for p_ in enumerate_paths(mf, d_, stop=lambda x: x is mf.cfg.exit):
+                if p_.end not in ("exit", "stop"):
+                    continue
+                rearmed = any(nd.kind == "stmt" and any(path_of(k.func) == "self._schedule_election_timeout" for k in calls_in(nd.ast)) for nd in p_.nodes)
+                not_deposed = p_.decided(lambda t: t == "deposed") is False and p_.decided(lambda t: t == "vote_granted") is False
+                if not (rearmed or not_deposed):
+                    bad.append(p_.describe()[-100:])
+            if m.name == "_handle_request_vote":
+                # `deposed` must mean what it says: leader before the step-down, not leader after it
+                dd = [s_ for s_ in walk_stmts(m.node.body) if isinstance(s_, ast.Assign) and path_of(s_.targets[0]) == "deposed"]
+                wl = [s_ for s_ in walk_stmts(m.node.body) if isinstance(s_, ast.Assign) and path_of(s_.targets[0]) == "was_leader"]
+                okd = len(dd) == 1 and len(wl) == 1 and unparse(wl[0].value).replace(" ", "") == "self._state==RaftState.LEADER" and unparse(dd[0].value).replace(" ", "") == "was_leaderandself._state!=RaftState.LEADER" \
+                    and not always_before(ctx, m, lambda x: x.ast is wl[0], lambda x: x is d_) and bool(always_before(ctx, m, lambda x: x.ast is dd[0], lambda x: x is d_))
+                if not okd:
+                    bad.append("`deposed` is not computed as leader-before ∧ not-leader-after around the step-down")
+            ctx.ob("C11-3", "G2", m, d_.ast, not bad, f"RaftNode.{m.name}: after `_step_down` every path re-arms the election timer unless the node was not leader before (a deposed leader has no timer running)"
+                   + ("" if not bad else " — " + bad[0]))
+    need(n >= 4, f"C11-3: expected >= 4 step-down sites, found {n}")
+
+
 def rule_round2(ctx: Ctx) -> None:
     prog = ctx.prog
     # Log.truncate_from acts for every 1 <= index <= len and only then
@@ -310,12 +348,15 @@ def run(ctx: Ctx) -> None:
     protocol_schema(ctx, "C11-7", node)
 
     ctx.guarded(rule_round2)
+    ctx.guarded(rule_hunted)
     ctx.guarded(rule_network_dependency)
     for r, k in (("C11-1", 4), ("C11-2", 2), ("C11-3", 6), ("C11-4", 3), ("C11-5", 5), ("C11-6", 3), ("C11-7", 6), ("C11-8", 2), ("C11-9", 1)):
         ctx.floor(r, k)
 
 
 MUTANTS = [
+    ("raft-falsy-state-machine-discarded", RAFT, "state_machine if state_machine is not None else KVStateMachine()", "state_machine or KVStateMachine()", "C11-6"),
+    ("deposed-leader-gets-no-timer", RAFT, "        if vote_granted or deposed:", "        if vote_granted:", "C11-3"),
     ("tally-closed-form-strict", RAFT, '            count = 1  # self\n            for match_idx in self._match_index.values():\n                if match_idx >= n:\n                    count += 1\n', '            count = 1 + sum(1 for m in self._match_index.values() if m > n)\n', "C11-4"),
     ("tally-closed-form-counts-self-twice", RAFT, '            count = 1  # self\n            for match_idx in self._match_index.values():\n                if match_idx >= n:\n                    count += 1\n', '            count = 2 + sum(1 for m in self._match_index.values() if m >= n)\n', "C11-4"),
     ("tally-closed-form-counts-everyone", RAFT, '            count = 1  # self\n            for match_idx in self._match_index.values():\n                if match_idx >= n:\n                    count += 1\n', '            count = 1 + sum(1 for m in self._match_index.values())\n', "C11-4"),
@@ -347,5 +388,5 @@ MUTANTS = [
 MUTANTS = [m for m in MUTANTS if m[4] != "C11-NONE"]
 REFACTORS = [
     ("tally-closed-form", RAFT, '            count = 1  # self\n            for match_idx in self._match_index.values():\n                if match_idx >= n:\n                    count += 1\n', '            count = 1 + sum(1 for m in self._match_index.values() if m >= n)\n'),
-    ("vote-test-split", RAFT, "        if term > self._current_term:\n            self._step_down(term)\n\n        vote_granted = False", "        if self._current_term < term:\n            self._step_down(term)\n\n        vote_granted = False"),
+    ("vote-test-split", RAFT, "        if term > self._current_term:\n            self._step_down(term)\n        deposed = was_leader", "        if self._current_term < term:\n            self._step_down(term)\n        deposed = was_leader"),
 ]
